@@ -34,7 +34,7 @@ checks = {
              note="Trusted base: strace 6.1 syscall injection (validated per run: the injected run's trace must equal the baseline's prefix and end at the chosen call, else it is discarded); kernel page cache is the truth (process death, not power loss); torn single writes are dominated by the crash point before the write.",
              text="For every sampled workload (name, 0-200 output lines, bitstream size, failure kind; pre-state: empty / directory exists / leftovers of a killed earlier save; TMPDIR on the same or on another file system; one save or two saves for the same test within one process and second) EVERY file-system-affecting system call of the save is a crash point: a single-threaded child is killed on entry to that call; J1: every *.fail file left behind is byte-identical (up to timestamps) to the uninterrupted save; J2: a fresh process either behaves as if no fail file existed or replays the complete case; partial data only under temporary names."),
  "C17": dict(engine="E1", cat="fault_enumeration", ref="§3 C17", technique="deterministic simulation: fault injection into durable state (seeded + exhaustive truncation/bit-flip corruption of real fail files) with a differential oracle against a clean directory",
-             text="Faults are injected into the only durable state (the fail-file directory) between runs: 21 fault kinds incl. truncation at any offset and single-bit flips (exhaustively enumerated for a fixed reference file in the thorough tier), 1-4 files at once (or 30-100 unreadable entries with the process 10 descriptors away from RLIMIT_NOFILE and a property that opens a file), passing and failing targets; differential oracle against the same run in an empty directory: no crash, same verdict/message/random cases, one log line per unusable file."),
+             text="Faults are injected into the only durable state (the fail-file directory) between runs: 22 fault kinds incl. blank lines, truncation at any offset and single-bit flips (exhaustively enumerated for a fixed reference file in the thorough tier), 1-4 files at once (or 30-100 unreadable entries with the process 10 descriptors away from RLIMIT_NOFILE and a property that opens a file), passing and failing targets; differential oracle against the same run in an empty directory: no crash, same verdict/message/random cases, one log line per unusable file."),
  "C11": dict(engine="E1", cat="exploration", ref="§3 C11", technique="deterministic simulation: blame oracle over multi-case histories on the reused T (selector programs), reach probes for the ordered pairs of consecutive behaviours",
              text="Selector programs make consecutive test cases take every reachable order of {pass, skip, errorf, errorf-skip, errorf-then-generator-gives-up, cleanup errorf, cleanup panic, fatal}; the case Check goes on to reproduce must be one that signalled, no signalling case is passed over or lost, never flaky, draw numbering restarts, brackets closed across cases."),
 }
